@@ -19,6 +19,7 @@ REPLAY_BOUNDS = {
     'sdd': 'CompressionSddBuilder: a systematic family (56 ordered pairs of non-literal operands x 6 vtrees: iff, xor and twelve ite combinations of the operands, their negations and the constants in one builder, so that ite-cache entries written first are read later) and 1200 seeded random straight-line programs of 9-18 operations (var, negate, and, or, iff, xor, ite, condition, exists, and verbatim repetitions of earlier operations so that the apply and ite caches hit) over 8 vtrees with 3-4 variables; every result evaluated by a structural walk against the truth table of the definition; earlier results re-checked after every operation',
     'hasher': 'CnfHasher new / push / decide / pop / hash: EXHAUSTIVE walk over all partial assignments (push, decide, recurse, pop) of 501 formulas with 3-5 variables and 2-5 clauses of 2-3 literals (half with a pivot variable and otherwise positive literals, so literals repeat across clauses), every pair of visited states compared; half of them again through Cnf::new(..).hasher() with repeated literals, a clause that is one literal repeated and a reversed clause; plus 2 fixed and 600 seeded random histories of 4-15 operations on CNFs with 2-4 variables and 1-5 clauses of <= 3 literals (prime product < 2^128), partial model kept in step with the decisions; every pair of visited states that falsify no clause: equal hash <=> the unsatisfied non-unit clauses restricted to unassigned literals coincide clause by clause',
     'vtree': 'VTreeManager::new / var_index / vtree / lca / is_prime_index / is_prime_var / num_vars on every binary tree shape x every labelling with 1-4 leaves (dense labels 0..n-1) and every shape with 3 seeded labellings for 5 and 6 leaves (303 trees) and five random trees with 20-70 leaves, all pairs of in-order indices, against a direct walk of the shape',
+    'unitprop': 'SATSolver new / decide / pop / is_set / cur_hash / is_sat / difference_iter: 12 fixed histories (replacement-watch corners in both polarities, unit chains, tautologies, duplicates, unsatisfiable core, empty formula), a systematic family (every 3-literal clause over 3 of 4 variables in all 8 polarities x every ordered pair of decisions in all polarities, then two pops), 1500 seeded random histories (2-6 variables, 1-7 clauses of 1-4 literals, 1-10 operations) and 400 deeper ones (5-8 variables, 4-15 clauses, 6-25 operations); after every step compared with brute-force entailment over all assignments: assigned values entailed by CNF + decisions, UNSAT only if no model extends the decisions, otherwise no clause falsified or unit, pop restores is_set / hash / is_sat, is_sat iff every non-tautological clause has a true literal, equal hashes only for identical residual formulas (checked while the prime product cannot wrap: <= 26 literal occurrences)',
     'poly': 'Polynomial<FiniteField<U32_TINY>>: 403 pairs of polynomials with 0..33 coefficients (seeded random), + and * against the schoolbook definition, and the semiring laws (+,* commutative and associative, identities, annihilation, distributivity) as == on the results, third operand = second reversed',
 }
 
@@ -136,6 +137,23 @@ prop('C15',
          'Cnf::new (iterator chains, sort_by_key, dedup) [bounded check `cnf` only]', 'Cnf::condition is under contract -- (F | l) evaluates on every assignment a like F on a with l\'s variable set to l\'s polarity, by invariants over the two real loops (whole clause skipped on a literal equal to l, the opposite literal dropped) -- with two declared loop-header rewrites (R-for-while: labelled `continue` needs a `while`) and its final call `Cnf::new(&new_cnf)` answered by the stub of A-cnf-new [+ bounded check `cnf`]', 'CnfHasher (HashSet; external prime sieve; labelled continue): the residual-formula hasher sentence of the property has a bounded check only (`hasher`)',
          'AssignmentIter::next (fold closure) and Cnf::wmc (brute-force counting) [bounded check `cnf` only; it found the empty-formula defect fixed in 18754bc]',
          'VarSet union / minus / intersect_varset / difference and PartialModel constructors / assignment_iter / difference (BitSet iterator adapters) [bounded check `cnf` only]',
+     ])
+
+prop('C09',
+     units=['satstack'],
+     assumptions=[A_VERUS, A_EXTRACT,
+                  'A-sat-deps: PartialModel, BitSet, UnitPropagate::decide and SATSolver::update_hash_and_sat_set are opaque stubs about whose results NOTHING is assumed (is_set returns the model\'s set_s, the contract proved for the real accessor in unit cnf); the stack discipline is proved for any propagator and any hash update',
+                  'A-lit: Literal is the two-field stub (bit packing proved by Kani under C15)'],
+     replay='unitprop',
+     explanation='PARTIAL. Proved (for every history, any propagator): the decision stack is a stack -- SATSolver::decide pushes exactly one frame, or none when it reports UNSAT, and never touches the frames below; pop removes exactly the top frame; '
+                 'is_set / cur_hash / is_sat read only the top frame and the immutable clause list; DecisionResult::SAT is returned exactly when is_sat() holds afterwards.  Hence (lemma_pop_undoes_decide) a decide that does not report UNSAT followed by pop '
+                 'restores every observable answer -- the property\'s "popping restores exactly the state that held before the matching decision".  The other clauses of the property (soundness, UNSAT only when no model extends the decisions, fixpoint, '
+                 'satisfied flag, hash injectivity) concern UnitPropagate::decide and update_hash_and_sat_set, which are outside Verus; they have a BOUNDED check only (`unitprop`)',
+     not_covered=[
+         'UnitPropagate::new / decide (iterator adapters over closures capturing the partial model: filter, clone().count(), nth(1); recursion through &mut self): soundness, "UNSAT only when no model extends the decisions" and the fixpoint clause have the bounded check `unitprop` only -- it found the replacement-watch defect fixed in e08fc81',
+         'SATSolver::new and update_hash_and_sat_set (iterator chains, external prime sieve, labelled continue over BitSet iterators): the satisfied-flag and hash clauses have the bounded check `unitprop` only',
+         'difference_iter (returns impl Iterator; reads the two top frames): used by the bounded check to reconstruct the model, not under contract',
+         'the watch lists are mutated by decide and not restored by pop (by design): they are not observable through the public API, and their effect on later propagation is covered only by the bounded check (histories with pops followed by further decisions)',
      ])
 
 prop('C14',
